@@ -41,6 +41,13 @@ DSchemaTop == SchemaD(<<RootD("query", "Top")>>)
 
 Syntax == BaseDef("SYNTAX", "")
 ReadFault == BaseDef("READFAULT", "")
+CloseFault == BaseDef("CLOSEFAULT", "")
+\* extensions that only add directive uses, of every kind that can carry them (what a refused load must take back)
+XDateTag == Ext(WithDirs(ScalarD("Date"), <<DU("tag", <<>>)>>))
+XETag == Ext(WithDirs(EnumD("E", <<EV("S")>>), <<DU("tag", <<>>)>>))
+XUTag == Ext(WithDirs(UnionD("U", <<"Query">>), <<DU("tag", <<>>)>>))
+XInTag == Ext(WithDirs(InputD("In", <<ArgD("k", I)>>), <<DU("tag", <<>>)>>))
+XNTag == Ext(WithDirs(InterfaceD("N", <<>>), <<DU("tag", <<>>)>>))
 FUndef == ObjectD("Z", <<>>, <<FieldD("q", Named("Nope"), <<>>)>>)
 FDup == ObjectD("A", <<>>, <<FieldD("x", I, <<>>)>>)
 FXDupField == Ext(ObjectD("A", <<>>, <<FieldD("z", I, <<>>), FieldD("x", I, <<>>)>>))
@@ -57,13 +64,14 @@ FXUnion == Ext(UnionD("U", <<"E">>))
 GoodDocs ==
   { <<DQuery, DA, DB, DN>>, <<DU1, DE, DIn>>, <<DMut>>, <<DTag, DDate>>, <<XQuery>>, <<XA>>, <<XE, XU>>, <<XIn>>,
     <<DSchema>>, <<DSchemaQ>>, <<DE>>, <<DIn, DMut>>, <<DMut2>>, <<DSub>>, <<XQuery2, XE2>>,
-    <<XAImpl>>, <<DTop, DSchemaTop>>, <<DSub, XSchemaSub>>, <<XSchemaMut>> }
+    <<XAImpl>>, <<DTop, DSchemaTop>>, <<DSub, XSchemaSub>>, <<XSchemaMut>>, <<XDateTag>> }
 BadDocs ==
   { <<Syntax>>, <<XQuery, Syntax>>, <<DSchemaQ, Syntax>>, <<DE, ReadFault>>, <<XE, ReadFault, XU>>,
     <<XE, FXNotFound>>, <<XQuery, FEmpty>>, <<DSchemaQ, FUndef>>, <<FDup>>, <<XIn, FXDupField>>, <<XQuery, FXKind>>,
     <<FIface>>, <<XE, FInOut>>, <<DDate, FUndef>>, <<XA, XU, FEmpty>>,
     \* an operation root type in a document refused only by the final validation; one type extended twice before the failure
     <<FXIface>>, <<DDate, FXIface>>, <<FXUnion>>,
+    <<XDateTag, FEmpty>>, <<XETag, XUTag, FUndef>>, <<XInTag, XNTag, FEmpty>>, <<DSub, CloseFault>>, <<XQuery, XE, CloseFault>>,
     <<DMut2, FEmpty>>, <<DSub, FInOut>>, <<XQuery, XQuery2, FEmpty>>, <<XE, XE2, FXNotFound>>, <<XIn, XIn2, FXDupField>> }
 G1 == <<DQuery, DA, DB, DN>>
 G2 == <<DU1, DE, DIn>>
